@@ -49,6 +49,8 @@ type world struct {
 	nState  map[thor.Bytes32]int // number of state writes of the block's import (from the reference run)
 	rng     *rand.Rand
 	txWhere map[thor.Bytes32][]thor.Bytes32 // tx id -> blocks of the stream containing it
+	own     map[thor.Bytes32]bool           // blocks the node under test PRODUCES itself (real doPack) instead of receiving
+	ownAt   map[int]bool                    // reference run: produce a block after delivering stream position i
 }
 
 func (w *world) p(id thor.Bytes32) pathT {
@@ -78,7 +80,8 @@ func buildStream(seed int64, blocks int) *world {
 	rng := rand.New(rand.NewSource(seed))
 	E := uint32(3)
 	net := sim.NewNet(sim.Options{Validators: 4, Nodes: 1, EpochLength: E, PoS: rng.Intn(3) == 0, ExtraAccts: 3, RealRun: true})
-	w := &world{net: net, path: map[thor.Bytes32]pathT{}, nState: map[thor.Bytes32]int{}, rng: rng, txWhere: map[thor.Bytes32][]thor.Bytes32{}}
+	w := &world{net: net, path: map[thor.Bytes32]pathT{}, nState: map[thor.Bytes32]int{}, rng: rng, txWhere: map[thor.Bytes32][]thor.Bytes32{},
+		own: map[thor.Bytes32]bool{}, ownAt: map[int]bool{}}
 	g := net.B0.Header().ID()
 	w.path[g] = pathT{}
 	used := map[string]bool{}
@@ -178,6 +181,13 @@ func buildStream(seed int64, blocks int) *world {
 		}
 	}
 	w.stream = append(w.stream, pendingSide...)
+	// positions after which the node under test produces a block of its own on its best block (decided here, produced
+	// for the first time by the reference run, which inserts the block into the stream)
+	for i := 2; i < len(w.stream); i++ {
+		if rng.Intn(6) == 0 {
+			w.ownAt[i] = true
+		}
+	}
 	return w
 }
 
@@ -194,10 +204,15 @@ type runner struct {
 	pos          int      // index into the stream of the block being delivered
 	crashPhases  []string // class of the write each crash prevented
 	lastCrashPos int
+	producing    bool   // reference run: the node is producing a block whose id is not known yet
+	ownDiff      string // a re-produced own block differs from the one the uninterrupted node produced
 }
 
 func (r *runner) onWrite(idx int, b *kvrec.Batch) {
 	if r.cur == nil {
+		if r.producing && kvrec.WriteClass(b) == "state" {
+			r.nSt++
+		}
 		return
 	}
 	cls := kvrec.WriteClass(b)
@@ -245,17 +260,49 @@ func (r *runner) deliver(blk *block.Block) (alive bool) {
 			panic(x)
 		}
 	}()
-	class, err := r.node.Deliver(blk)
+	var class string
+	var err error
+	if r.w.own[blk.Header().ID()] {
+		class, err = r.produce(blk)
+	} else {
+		class, err = r.node.Deliver(blk)
+	}
 	switch class {
 	case "ok":
 		r.evs = append(r.evs, trace.Ev{"e": "Done", "b": b, "best": r.w.p(r.node.Repo.BestBlockSummary().Header.ID()),
 			"fin": r.w.p(r.node.BFT.Finalized())})
 	case "known", "parent-missing", "unprocessable", "bft-rejected":
 		r.evs[beginIdx] = trace.Ev{"e": "Skip", "b": b, "why": class}
+	case "own-differs":
+		// the node signed a block that is not part of the stream: the specification cannot follow this run any further
+		r.evs = append(r.evs, trace.Ev{"e": "OwnDiffers", "b": b})
 	default:
 		r.evs = append(r.evs, trace.Ev{"e": "Fail", "b": b, "err": fmt.Sprint(err)})
 	}
 	return true
+}
+
+// produce: the node under test packs the block itself through the real doPack (ShouldVote, Pack, commitBlock,
+// broadcast) on the parent and in the slot of the block the uninterrupted node produced at this point of the stream.
+func (r *runner) produce(blk *block.Block) (string, error) {
+	id := blk.Header().ID()
+	if _, err := r.node.Repo.GetBlockSummary(id); err == nil {
+		return "known", nil // produced and stored before the crash
+	}
+	parent, err := r.node.Repo.GetBlockSummary(blk.Header().ParentID())
+	if err != nil {
+		return "parent-missing", nil
+	}
+	nb, err := r.node.ProposeOn(parent, blk.Header().Timestamp())
+	if err != nil {
+		return "error", err
+	}
+	if nb.Header().ID() != id {
+		r.ownDiff = fmt.Sprintf("block %d produced after the restart differs from the uninterrupted node's (com %v vs %v, time %d vs %d)",
+			blk.Header().Number(), nb.Header().COM(), blk.Header().COM(), nb.Header().Timestamp(), blk.Header().Timestamp())
+		return "own-differs", nil
+	}
+	return "ok", nil
 }
 
 func (r *runner) logsHead() pathT {
@@ -292,6 +339,8 @@ type cutResult struct {
 	FinContra  string   `json:"finality_contradiction,omitempty"`
 	TxLookup   string   `json:"tx_lookup,omitempty"` // a tx is found by id although it is not on best's chain (or vice versa)
 	Variant    string   `json:"variant,omitempty"`
+	Broadcast  string   `json:"broadcast,omitempty"` // a block was broadcast before the crash but is not stored after the restart
+	OwnDiff    string   `json:"own_diff,omitempty"`
 	Diverged   string   `json:"diverged,omitempty"` // after resuming: best / qualities / finalized differ from the reference
 	ImportErrs []string `json:"import_errors,omitempty"`
 	Events     int      `json:"events"`
@@ -307,6 +356,7 @@ type reference struct {
 	finAtPos   []bool // stream position -> its import wrote the finalized key on the reference node
 	base       int    // number of durable writes of the first start (before the stream)
 	n          int
+	produced   int // blocks the reference node produced itself
 }
 
 func main() {
@@ -334,23 +384,72 @@ func main() {
 		r := &runner{w: w, kv: kvrec.New(), ldb: ldb, recordCounts: true}
 		must(r.open(true))
 		r.base = r.kv.Len()
-		for pos, blk := range w.stream {
-			before := r.kv.Len()
-			if !r.deliver(blk) {
-				panic("reference crashed")
-			}
+		account := func(pos int, blk *block.Block, before int) {
 			for i := before; i < r.kv.Len(); i++ {
 				ref.writePos = append(ref.writePos, pos)
 			}
 			fin := false
-			for i, b := range r.kv.Log()[before:] {
-				_ = i
+			for _, b := range r.kv.Log()[before:] {
 				ref.writeBlock = append(ref.writeBlock, int(blk.Header().Number()))
 				if kvrec.WriteClass(&b) == "fin" {
 					fin = true
 				}
 			}
 			ref.finAtPos = append(ref.finAtPos, fin)
+		}
+		for pos := 0; pos < len(w.stream); pos++ {
+			blk := w.stream[pos]
+			before := r.kv.Len()
+			if !r.deliver(blk) {
+				panic("reference crashed")
+			}
+			account(pos, blk, before)
+			if !w.ownAt[pos] {
+				continue
+			}
+			// blocks are named by their path of (signer, COM bit): the node's own block must not share a name with a
+			// block of the pre-minted tree (a child of the same parent signed by v0)
+			{
+				bp := w.p(r.node.Repo.BestBlockSummary().Header.ID())
+				clash := false
+				for _, pth := range w.path {
+					if len(pth) == len(bp)+1 && pth[len(bp)][0] == "v0" && fmt.Sprint(pth[:len(bp)]) == fmt.Sprint(bp) {
+						clash = true
+					}
+				}
+				if clash {
+					continue
+				}
+			}
+			// the node produces a block of its own on its best block; from now on that block is part of the stream
+			before = r.kv.Len()
+			r.producing, r.nSt = true, 0
+			nb, err := r.node.Propose(0)
+			r.producing = false
+			if err != nil {
+				fmt.Println("HARNESS-ERROR reference node cannot produce:", err)
+				os.Exit(3)
+			}
+			must(w.net.GodLearn(nb))
+			id := nb.Header().ID()
+			w.path[id] = append(append(pathT{}, w.p(nb.Header().ParentID())...), []any{"v0", nb.Header().COM()})
+			w.own[id] = true
+			w.nState[id] = r.nSt
+			w.stream = append(w.stream[:pos+1], append([]*block.Block{nb}, w.stream[pos+1:]...)...)
+			// shift the remaining production points
+			shifted := map[int]bool{}
+			for k := range w.ownAt {
+				if k > pos {
+					shifted[k+1] = true
+				} else {
+					shifted[k] = true
+				}
+			}
+			delete(shifted, pos)
+			w.ownAt = shifted
+			pos++
+			account(pos, nb, before)
+			ref.produced++
 		}
 		for _, e := range r.evs {
 			if e["e"] == "Fail" {
@@ -445,7 +544,7 @@ func main() {
 	f, err := os.Create(filepath.Join(*out, "cuts.json"))
 	must(err)
 	must(json.NewEncoder(f).Encode(map[string]any{"seed": *seed, "engine_contract": engineContract, "writes": ref.n, "blocks": len(w.stream), "pos": w.net.Opt.PoS,
-		"refBest": block.Number(ref.best), "refFin": block.Number(ref.fin), "cuts": results}))
+		"refBest": block.Number(ref.best), "refFin": block.Number(ref.fin), "produced": ref.produced, "cuts": results}))
 	f.Close()
 	fmt.Printf("{\"cuts\":%d,\"writes\":%d,\"events\":%d,\"refFin\":%d}\n", len(results), ref.n, len(all), block.Number(ref.fin))
 }
@@ -489,12 +588,18 @@ func runCut(w *world, ref *reference, k, second int, siblingFirst bool) (cutResu
 		pass++
 		r.kv.CrashAt(-1)
 		r.evs = append(r.evs, trace.Ev{"e": "Crash", "logs": r.logsHead()})
+		broadcast := r.node.Comm.Out // what this life of the node told its peers
 		r.node.Close()
 		if err := r.open(false); err != nil {
 			res.RestartErr = err.Error()
 			r.evs = append(r.evs, trace.Ev{"e": "RestartFailed", "err": err.Error()})
 			res.Events = len(r.evs)
 			return res, r.evs
+		}
+		for _, b := range broadcast {
+			if _, err := r.node.Repo.GetBlockSummary(b.Header().ID()); err != nil && res.Broadcast == "" {
+				res.Broadcast = fmt.Sprintf("block %d was broadcast before the crash but is not stored after the restart (the node will sign another block for that slot)", b.Header().Number())
+			}
 		}
 		complete := true
 		digest, err := nodecheck.BestComplete(r.node.Repo, r.node.DB)
@@ -598,6 +703,7 @@ func runCut(w *world, ref *reference, k, second int, siblingFirst bool) (cutResu
 	r.node.Close()
 	res.Events = len(r.evs)
 	res.Phases = r.crashPhases
+	res.OwnDiff = r.ownDiff
 	return res, r.evs
 }
 
